@@ -106,3 +106,8 @@ CHECKS["C14"] = dict(level=MC, engine="E1", design_ref="DESIGN.md section 3 C14"
    technique="explicit-state BFS (depth-bounded) over create/copy/import/attach/replace/delete/prune/expand histories, lock-step with a set model of the registry",
    text="Every history up to depth 6 (7) with at most 10 (12) live nodes over 7 creation templates, 3 XML imports, copy of any node, attach, replace with and without deletion, delete by id with and without descendants (including nodes whose descendants were already deleted), prune in both modes and expand is executed on the real code; after every transition Node.store must equal the model's live set, every id must map to its node and all ids ever created must be distinct; nodes discarded by prune/expand/replace must be gone and nodes still in a tree must not be unregistered by them.",
    note="Depth and live-node cap bound the search (reported as a cap, not a fixpoint); which nodes prune/expand take out of the tree is judged by C15/C16; uuid1 uniqueness is observed only.")
+
+CHECKS["C11"] = dict(level=MC, engine="E1", design_ref="DESIGN.md section 3 C11",
+   technique="exhaustive exploration of all operation sequences up to length k on a self-loop state graph (one state per base tree), identity-based deep snapshot as invariant plus result-independence check",
+   text="For 38 base trees (tests/data/eml.xml, generated witnesses, trees with markup characters / pre-escaped entities / para tags, invalid trees, trees with extras, prefixes and shared namespace maps) every sequence of up to 2 (3) of 22 read-only operation groups (both validators in both modes on the tree and on every node, evaluation, three JSON/XML exporters each, both graph renderers, str/repr, every search query on every node, insertion-index and allowed-child queries for every parent x candidate, structural comparison) is executed on a fresh tree; the snapshot of every field of every node, child and parent identities and the registry must never change and results must not depend on what ran before.",
+   note="Sequence length k and the set of base trees are the bound; nsmap dict aliasing is not part of the snapshot (not observable).")
